@@ -137,6 +137,8 @@ DeepOk(n) == n <= DepthLimit
 (* @setDataFrame handling on token sequences.                                                    *)
 SdfS == [n |-> 13, id |-> 0, s |-> "@setDataFrame"]
 IsSdf(toks) == Len(toks) >= 3 /\ toks[1] = M(2) /\ toks[2] = U16(13) /\ toks[3] = Raw(SdfS)
-EnsureWith(toks) == IF IsSdf(toks) THEN toks ELSE <<M(2), U16(13), Raw(SdfS)>> \o toks
-EnsureWithout(toks) == IF IsSdf(toks) THEN SubSeq(toks, 4, Len(toks)) ELSE toks
+\* the prefix may also arrive in long-string form (marker 12, 32-bit length): lal's string reader accepts both
+IsSdfL(toks) == Len(toks) >= 3 /\ toks[1] = M(12) /\ toks[2] = U32(13) /\ toks[3] = Raw(SdfS)
+EnsureWith(toks) == IF IsSdf(toks) \/ IsSdfL(toks) THEN toks ELSE <<M(2), U16(13), Raw(SdfS)>> \o toks
+EnsureWithout(toks) == IF IsSdf(toks) \/ IsSdfL(toks) THEN SubSeq(toks, 4, Len(toks)) ELSE toks
 =============================================================================
